@@ -18,7 +18,7 @@ func init() { register(c09{}) }
 func (c09) ID() string            { return "C09" }
 func (c09) EvidenceLevel() string { return "exploration" }
 func (c09) Rule() string {
-	return "case = (accelerated setting: levels -2,-1,1,2 x 32K/4K window, flate/gzip/zlib; data usually >= 3 buffer roll-overs long; a set of Flush positions; 3 (quick) or 5 (thorough) different partitions of the same data into Write calls: one Write per Flush segment, random sizes, sizes ending exactly at / one byte around 2W+258 and 64 KiB multiples, zero-length writes sprinkled in, single bytes for inputs <= 20000). All emissions must be byte-identical. Non-trivial: at least two genuinely different partitions of non-empty data; distinct by (setting, data digest, flush set, partition pair)."
+	return "case = (accelerated setting: levels -2,-1,1,2 x 32K/4K window, flate/gzip/zlib; data usually >= 3 buffer roll-overs long; a set of Flush positions; 3 (quick) or 5 (thorough) different partitions of the same data into Write calls: one Write per Flush segment, random sizes, sizes ending exactly at / one byte around 2W+258 and 64 KiB multiples, zero-length writes sprinkled in, single bytes for inputs <= 20000). All emissions must be byte-identical. Non-trivial: at least two genuinely different partitions of non-empty data; distinct by (setting, data digest, flush set, partition pair). Every 25th case is a checksum stress through zlib/gzip: a random prefix, then 5552..2^20 bytes of 0xff/0xfe/0x00 within one Write."
 }
 func (c09) NumCases(tier string) int {
 	if tier == "thorough" {
@@ -142,6 +142,24 @@ func (c09) Run(c *mon.Ctx, i int) {
 		e := base + blk
 		fixedParts = [][]gen.Op{mk(e - 1), mk(e - 2), mk(e - 3), mk(e), mk(e + 1), mk(e-2, e-1), mk(e-1, e+blk-1), mk(e-2, e+blk-2)}
 		c.Count("huffonly-block-edge-cases", 1)
+	}
+	if i%25 == 12 && fixedParts == nil {
+		// checksum stress: long runs of the largest byte values inside one Write
+		// (the running sums of Adler-32 are largest there) behind a prefix that
+		// puts the sums anywhere, through the wrappers that keep a checksum
+		s.Wrapper = []string{"zlib", "zlib", "gzip"}[r.Intn(3)]
+		s.Win4K = false
+		v := byte(r.Pick(0xff, 0xff, 0xff, 0xfe, 0x00))
+		b := r.Bytes(r.Range(0, 70000))
+		run := r.Pick(5552, 5553, 5568, 11136, 70000, 500000, 1<<20)
+		for j := 0; j < run; j++ {
+			b = append(b, v)
+		}
+		b = append(b, r.Bytes(r.Range(0, 100))...)
+		d = gen.Data{Desc: fmt.Sprintf("random+run-of-%02x/%d", v, run), B: b}
+		n = len(b)
+		flushes = nil
+		c.Count("checksum-stress-cases", 1)
 	}
 	ref, err := emit(c.API, s, d.B, gen.Schedule(r, n, flushes, "one"))
 	if err != nil {
